@@ -8,6 +8,8 @@ The tie of the descriptor and of the model to the real code is the `togo` channe
 -/
 import ZygoVerif.Model.ToGo
 import ZygoVerif.Spec.RecordGo
+import ZygoVerif.Proofs.ToGoCache
+import ZygoVerif.Model.LegacyToGo
 namespace ZygoVerif.C10
 open ZygoVerif.ToGo ZygoVerif.SpecToGo
 
@@ -176,6 +178,137 @@ theorem togo_fills_every_field (rec : Rec) (tbl : List Entry) :
 
 example : Apart [0, 1] [0, 2] ∧ Apart [1] [0, 2] := by simp [Apart]
 
+/-- the field loop over `pre ++ post` is the loop over `pre` followed by the loop over `post` -/
+theorem fillFields_append (rec : Rec) (tbl : List Entry) :
+    ∀ (pre post : List (Key × Sx)) (st : St) (sv : GV),
+    fillFields rec tbl st sv (pre ++ post) =
+      (match fillFields rec tbl st sv pre with
+       | .ok (sv1, st1) => fillFields rec tbl st1 sv1 post
+       | .error e => .error e) := by
+  intro pre
+  induction pre with
+  | nil => intro post st sv; simp [fillFields]
+  | cons kv pre ih =>
+    intro post st sv
+    obtain ⟨k, x⟩ := kv
+    cases hk : keyBytes k with
+    | none => simp [fillFields, hk]
+    | some b =>
+      cases hr : resolve tbl b with
+      | none => simp [fillFields, hk, hr]
+      | some e =>
+        cases hg : getPath sv e.path with
+        | none => simp [fillFields, hk, hr, hg]
+        | some cur =>
+          cases hc : rec st x e.ty cur with
+          | error er => simp [fillFields, hk, hr, hg, hc, bind, Except.bind]
+          | ok p =>
+            obtain ⟨v, st1⟩ := p
+            cases hs : setPath sv e.path v with
+            | none => simp [fillFields, hk, hr, hg, hc, hs, bind, Except.bind]
+            | some sv1 =>
+              simp only [List.cons_append, fillFields, hk, hr, hg, hc, hs, bind, Except.bind]
+              exact ih post st1 sv1
+
+/-- `togo_fills_every_field`, for a pair at ANY position of the record: the loop succeeded, so the
+pair's key resolved to a declared field, its value was converted (once, by `rec`, into that
+field's type, starting from what the field held), and — when the pairs after it write only
+paths `Apart` from it — the finished struct holds exactly that converted value there. -/
+theorem togo_fills_every_field_at (rec : Rec) (tbl : List Entry)
+    (pre rest : List (Key × Sx)) (k : Key) (x : Sx) (st : St) (sv : GV) (out : GV × St)
+    (hfill : fillFields rec tbl st sv (pre ++ (k, x) :: rest) = .ok out) :
+    ∃ sv1 st1 b e cur v st2,
+      fillFields rec tbl st sv pre = .ok (sv1, st1) ∧ keyBytes k = some b ∧ resolve tbl b = some e ∧
+      getPath sv1 e.path = some cur ∧ rec st1 x e.ty cur = .ok (v, st2) ∧
+      ((∀ kv ∈ rest, ∀ b' e', keyBytes kv.1 = some b' → resolve tbl b' = some e' → Apart e'.path e.path) →
+        getPath out.1 e.path = some v) := by
+  rw [fillFields_append] at hfill
+  cases hpre : fillFields rec tbl st sv pre with
+  | error er => simp [hpre] at hfill
+  | ok p =>
+    obtain ⟨sv1, st1⟩ := p
+    simp only [hpre] at hfill
+    have hfill' := hfill
+    simp only [fillFields] at hfill
+    cases hk : keyBytes k with
+    | none => simp [hk] at hfill
+    | some b =>
+      cases hr : resolve tbl b with
+      | none => simp [hk, hr] at hfill
+      | some e =>
+        cases hg : getPath sv1 e.path with
+        | none => simp [hk, hr, hg] at hfill
+        | some cur =>
+          cases hc : rec st1 x e.ty cur with
+          | error er => simp [hk, hr, hg, hc, bind, Except.bind] at hfill
+          | ok q =>
+            obtain ⟨v, st2⟩ := q
+            exact ⟨sv1, st1, b, e, cur, v, st2, rfl, rfl, hr, hg, hc, fun hap =>
+              togo_fills_every_field rec tbl rest st1 sv1 k x b e cur v st2 out hk hr hg hc hap hfill'⟩
+
+/-! ### the way back, field by field (`roundtrip`, partial) -/
+
+/-- `roundtrip_partial`: let `rb` be a read-back function under which every value that `rec`
+converts comes back as it was (see `roundtrip_scalar`, `roundtrip_slice` for instances). Then for
+every pair `(k, x)` of a record that converted successfully, reading back the field the pair
+names gives exactly `x` (paths of later pairs `Apart`, as in `togo_fills_every_field`).
+MISSING for the full `fromGo (toGo r T) = r`: the assembly of the fields into one record (key
+order = declaration order, absent fields = zero values, embedded structs twice) and the
+instantiation of `rb` through pointers and interfaces; both are conventions of
+`FillHashFromShadow` that the `echo` correspondence checks against the spec on every op. -/
+theorem roundtrip_partial (rec : Rec) (rb : GV → Sx) (tbl : List Entry)
+    (hrb : ∀ st x T cur v st', rec st x T cur = .ok (v, st') → rb v = x)
+    (pre rest : List (Key × Sx)) (k : Key) (x : Sx) (st : St) (sv : GV) (out : GV × St)
+    (hfill : fillFields rec tbl st sv (pre ++ (k, x) :: rest) = .ok out)
+    (hap : ∀ b e, keyBytes k = some b → resolve tbl b = some e →
+      ∀ kv ∈ rest, ∀ b' e', keyBytes kv.1 = some b' → resolve tbl b' = some e' → Apart e'.path e.path) :
+    ∃ b e, keyBytes k = some b ∧ resolve tbl b = some e ∧ (getPath out.1 e.path).map rb = some x := by
+  obtain ⟨sv1, st1, b, e, cur, v, st2, _, hk, hr, _, hc, hget⟩ :=
+    togo_fills_every_field_at rec tbl pre rest k x st sv out hfill
+  refine ⟨b, e, hk, hr, ?_⟩
+  rw [hget (hap b e hk hr)]
+  simp [hrb st1 x e.ty cur v st2 hc]
+
+/-- scalars that come back exactly as they went in (the kind-preserving pairs; an integer stored
+into a float64 field comes back as a float, a char as an integer, a time not at all — the last
+is the known finding). `rbk` is irrelevant: no nested value. -/
+theorem roundtrip_scalar (w : World) (heap : List GV) (rbk : GV → Sx) (x : Sx) (T : Ty) (v : GV)
+    (hpair : (match x, T with
+      | .int _, .int _ => True | .uint _, .uint _ => True | .flt _, .f64 => True
+      | .str _, .str => True | .bool _, .bool => True | .raw _, .bytes => True | _, _ => False))
+    (h : convAtom w x T = .ok v) : backStep w heap rbk v = x := by
+  cases x <;> cases T <;> simp_all [convAtom, backStep] <;>
+    (try (rename_i k; cases k <;> simp_all [convAtom, backStep])) <;>
+    (try (split at h <;> simp_all [backStep])) <;>
+    (try (subst h; simp [backStep]))
+
+/-- slices: if every element comes back, the slice comes back (element order and count kept). -/
+theorem roundtrip_slice (rec : Rec) (rb : GV → Sx) (e : Ty) (z : GV)
+    (hrb : ∀ st x v st', rec st x e z = .ok (v, st') → rb v = x) :
+    ∀ (xs : List Sx) (st : St) (vs : List GV) (st' : St),
+    convList rec e z st xs = .ok (vs, st') → vs.map rb = xs := by
+  intro xs
+  induction xs with
+  | nil => intro st vs st' h; simp [convList] at h; simp [h.1]
+  | cons x xs ih =>
+    intro st vs st' h
+    simp only [convList, bind, Except.bind] at h
+    cases hc : rec st x e z with
+    | error er => simp [hc] at h
+    | ok p =>
+      obtain ⟨v, st1⟩ := p
+      simp only [hc] at h
+      cases hl : convList rec e z st1 xs with
+      | error er => simp [hl] at h
+      | ok q =>
+        obtain ⟨vs', st2⟩ := q
+        simp only [hl, pure, Except.pure, Except.ok.injEq, Prod.mk.injEq] at h
+        obtain ⟨hv, _⟩ := h
+        subst hv
+        simp [hrb st x v st1 hc, ih st1 vs' st2 hl]
+
+example : convAtom ⟨[], []⟩ (.str [97]) .str = .ok (.str [97]) := rfl
+
 /-! ### sharing -/
 
 /-- `togo_shares`: a record that was already converted (its id is in the dedup cache with object
@@ -202,18 +335,43 @@ theorem lookup_remember (st : St) (id : Nat) (v : GV) (t : Ty) :
 
 /-- …and leaves the other records' entries alone. -/
 theorem lookup_remember_ne (st : St) (id id' : Nat) (v : GV) (t : Ty) (hne : id' ≠ id) :
-    (st.remember id v t).lookup id' = st.lookup id' := by
-  simp only [St.remember, St.lookup]
-  have hb : (id == id') = false := by simpa using (fun h : id = id' => hne h.symm)
-  simp only [List.find?_cons, hb, List.find?_filter]
-  congr 1
-  have hfun : (fun a : Nat × GV × Ty => decide ((a.1 != id) = true ∧ (a.1 == id') = true))
-      = (fun a => a.1 == id') := by
-    funext a
-    by_cases h : a.1 = id'
-    · simp [h, hne]
-    · simp [h]
-  rw [hfun]
+    (st.remember id v t).lookup id' = st.lookup id' :=
+  ToGoCache.lookup_remember_ne st id id' v t hne
+
+/-- first conversion of a record into a pointer field: the result is a pointer to a fresh object
+and the cache remembers exactly that object for the record's id. -/
+theorem togo_remembers (w : World) (rec : Rec) (st st1 : St) (id : Nat) (tn s : String)
+    (kvs : List (Key × Sx)) (cur v1 : GV)
+    (hmiss : st.lookup id = none) (hn : tn ≠ "hash")
+    (h : convStep w rec st (.hash id tn kvs) (.ptr s) cur = .ok (v1, st1)) :
+    ∃ o, v1 = .ptr (some o) ∧ st1.lookup id = some (.ptr (some o), .ptr s) := by
+  have hn' : (tn == "hash") = false := by simpa using hn
+  simp only [convStep, hmiss, hn', bind, Except.bind, pure, Except.pure] at h
+  repeat' (split at h)
+  all_goals first
+    | (simp at h; done)
+    | (simp only [Except.ok.injEq, Prod.mk.injEq] at h
+       obtain ⟨hr, hst⟩ := h
+       subst hst
+       refine ⟨st.heap.length, ?_, ?_⟩ <;> simp_all [lookup_remember])
+
+/-- `togo_shares`, end to end: a record is converted into a pointer field (first visit), then
+ANY successful conversion happens (`conv w k …`, arbitrary value, type and depth), then the same
+record is met again at a pointer field of that struct: it converts to the SAME Go object, and
+nothing new is allocated or cached. Cache persistence (`conv_keeps`) is proved for the whole
+recursion by induction on the depth. -/
+theorem togo_shares_twice (w : World) (n k m : Nat) (st st1 st2 : St) (id : Nat) (tn s : String)
+    (kvs : List (Key × Sx)) (cur1 cur2 v1 : GV)
+    (y : Sx) (Ty' : Ty) (cy vy : GV)
+    (hmiss : st.lookup id = none) (hn : tn ≠ "hash")
+    (h1 : conv w (n+1) st (.hash id tn kvs) (.ptr s) cur1 = .ok (v1, st1))
+    (hmid : conv w k st1 y Ty' cy = .ok (vy, st2)) :
+    ∃ o, v1 = .ptr (some o) ∧
+      conv w (m+1) st2 (.hash id tn kvs) (.ptr s) cur2 = .ok (.ptr (some o), st2) := by
+  obtain ⟨o, hv, hl⟩ := togo_remembers w (conv w n) st st1 id tn s kvs cur1 v1 hmiss hn h1
+  refine ⟨o, hv, ?_⟩
+  have hl2 := ToGoCache.conv_keeps w k st1 y Ty' cy vy st2 hmid id _ hl
+  exact togo_shares w (conv w m) st2 id o tn s kvs cur2 hl2
 
 /-! ### kinds -/
 
@@ -236,5 +394,29 @@ theorem right_kind_is_exact (w : World) (x : Sx) (T : Ty) (v : GV)
 
 example : atomSpec ⟨[], []⟩ (.int 300) (.int .i8) = none := by decide
 example : atomSpec ⟨[], []⟩ (.flt 0x3ff8000000000000) (.int .i64) = none := by decide
+
+/-! ### the pinned tree (before the fixes): kernel-checked witnesses; each is replayed on the real
+code by the `togo` channel (see notes/C10.md for the op lines) -/
+
+/-- C10-01: `(togo (vleaf u:7ULL))` succeeded and left `U` at zero: the value was dropped. -/
+theorem uint_dropped_counterexample :
+    LegacyToGo.convUintLegacy 7 (.uint .u64) (.uint .u64 0) = .ok (.uint .u64 0) ∧
+    atomSpec ⟨[], []⟩ (.uint 7) (.uint .u64) = some (.uint .u64 7, true) := by
+  constructor <;> rfl
+
+/-- C10-03: `(togo (vleaf i8:300))` stored 44. -/
+theorem int_truncated_counterexample :
+    LegacyToGo.convIntLegacy 300 .i8 = .ok (.int .i8 44) ∧ atomSpec ⟨[], []⟩ (.int 300) (.int .i8) = none := by
+  constructor
+  · rfl
+  · decide
+
+/-- C10-02: a record first met at an interface field and then at a pointer field was an error
+(and fine in the other visiting order — Go's map iteration decided). -/
+theorem shared_through_iface_counterexample :
+    LegacyToGo.assignLegacy ⟨[], [("I", ["S"])]⟩ (.ptr (some 0)) (.ptr "S") (.ptr "S") (some "I") = .error .err ∧
+    LegacyToGo.assignLegacy ⟨[], [("I", ["S"])]⟩ (.ptr (some 0)) (.ptr "S") (.iface "I") none = .ok (.iface (some (.ptr (some 0)))) ∧
+    assign ⟨[], [("I", ["S"])]⟩ (.ptr (some 0)) (.ptr "S") (.ptr "S") = .ok (.ptr (some 0)) := by
+  refine ⟨?_, ?_, ?_⟩ <;> simp [LegacyToGo.assignLegacy, assign, World.implements]
 
 end ZygoVerif.C10
